@@ -12,6 +12,7 @@ package httpserver
 // defect classes apart.
 
 import (
+	"strings"
 	"testing"
 
 	vx "github.com/megaease/easegress/pkg/verifx"
@@ -116,7 +117,20 @@ func c12Pool(r interface{ Intn(int) int }, base []vx.M, clients []vx.M) []vx.M {
 			p["host"] = rhChars(host + m[:1])
 			p["m"] = rhChars(m[1:])
 			pool = append(pool, p)
-			// and the reverse reading for hosts that end in a method's first letter
+		}
+		// spellings a key normalisation might conflate but the router distinguishes: letter case of
+		// host or path, a trailing dot on the host
+		if r.Intn(2) == 0 {
+			v := clone(q)
+			switch r.Intn(3) {
+			case 0:
+				v["host"] = rhChars(strings.ToUpper(vx.Chars(q["host"])))
+			case 1:
+				v["path"] = rhChars(strings.ToUpper(vx.Chars(q["path"])))
+			default:
+				v["host"] = rhChars(vx.Chars(q["host"]) + ".")
+			}
+			pool = append(pool, v)
 		}
 	}
 	return pool
@@ -148,7 +162,7 @@ func TestVerifC12Trace(t *testing.T) {
 		paths := rgReqPaths(r, cfg)
 		base := []vx.M{}
 		for i := 0; i < 2+r.Intn(3); i++ {
-			base = append(base, rgReq(r, o, paths, clients))
+			base = append(base, rgReq(r, o, cfg, paths, clients))
 		}
 		pool := c12Pool(r, base, clients)
 		n := minLen + r.Intn(maxLen-minLen+1)
